@@ -160,24 +160,40 @@ mod unit {
 
     /// one reference through impl, model and oracle. `expect`: Some(canonical) when the property fixes the result.
     pub fn one_a1(rep: &mut Report, drv: &mut Driver, s: &[u8], expect: Option<String>) {
-        let input = format!("unit a1 {}", hex(s));
-        let i = show_a1(s);
-        let m = drv.ask(&format!("a1 {}", hex(s)));
-        rep.case(&input, expect.is_some() || i.starts_with("ok"));
-        rep.count(&format!("a1:{}", i.split(' ').next().unwrap_or("")));
-        let e = expect.clone().unwrap_or_default();
-        if i != m {
-            rep.fail("impl_vs_model", "a1", &input, &i, &m, &e);
+        many_a1(rep, drv, &[(s.to_vec(), expect)]);
+    }
+
+    /// a batch of references: one driver request
+    pub fn many_a1(rep: &mut Report, drv: &mut Driver, items: &[(Vec<u8>, Option<String>)]) {
+        if items.is_empty() {
+            return;
         }
-        if i == "panic" {
-            rep.fail("impl_vs_spec", "panic:get_row_and_optional_column", &input, &i, &m, "an error or a position, not a panic");
+        let req: Vec<String> = items.iter().map(|x| hex(&x.0)).collect();
+        let reply = drv.ask(&format!("a1 {}", req.join(" ")));
+        let ms: Vec<&str> = reply.split(';').collect();
+        if ms.len() != items.len() {
+            rep.fail("model_vs_spec", "driver-protocol", &format!("a1 {}", req.join(" ")), "", &reply, "");
+            return;
         }
-        if let Some(e) = expect {
-            if i != e {
-                rep.fail("impl_vs_spec", "a1-position", &input, &i, &m, &e);
+        for ((s, expect), m) in items.iter().zip(ms) {
+            let input = format!("unit a1 {}", hex(s));
+            let i = show_a1(s);
+            rep.case(&input, expect.is_some() || i.starts_with("ok"));
+            rep.count(&format!("a1:{}", i.split(' ').next().unwrap_or("")));
+            let e = expect.clone().unwrap_or_default();
+            if i != m {
+                rep.fail("impl_vs_model", "a1", &input, &i, m, &e);
             }
-            if m != e && i == e {
-                rep.fail("model_vs_spec", "a1-position", &input, &i, &m, &e);
+            if i == "panic" {
+                rep.fail("impl_vs_spec", "panic:get_row_and_optional_column", &input, &i, m, "an error or a position, not a panic");
+            }
+            if let Some(e) = expect {
+                if i != *e {
+                    rep.fail("impl_vs_spec", "a1-position", &input, &i, m, e);
+                }
+                if m != e && i == *e {
+                    rep.fail("model_vs_spec", "a1-position", &input, &i, m, e);
+                }
             }
         }
     }
@@ -333,6 +349,7 @@ mod unit {
             one_a1(rep, drv, s.as_bytes(), None);
         }
         let alpha: &[u8] = b"AZaz09AB19$: \xc3@[`{/";
+        let mut batch: Vec<(Vec<u8>, Option<String>)> = Vec::with_capacity(256);
         for _ in 0..n {
             let s: Vec<u8> = match rng.below(5) {
                 0 => {
@@ -370,8 +387,13 @@ mod unit {
                     format!("{}{}", xlsxw::col_name(rng.below(20000) as u32), base + rng.below(3)).into_bytes()
                 }
             };
-            one_a1(rep, drv, &s, None);
+            batch.push((s, None));
+            if batch.len() == 256 {
+                many_a1(rep, drv, &batch);
+                batch.clear();
+            }
         }
+        many_a1(rep, drv, &batch);
     }
 
     const DIM_CORPUS: &[(&str, Option<&str>)] = &[
@@ -1131,10 +1153,74 @@ fn corpus_case(name: &str) -> Option<(XlsxBook, Layout)> {
 
 const CORPUS: &[&str] = &[
     "d20-empty-si", "d21-prefixed-rich", "d21-prefixed-rich-inline", "d22-prefixed-workbookpr", "d23-rel-prefix", "implicit-refs", "corners", "blank-only",
-    "upper-parts",
+    "upper-parts", "raw:row-cursor-overflow", "raw:col-cursor-overflow", "raw:sst-index-out-of-range", "raw:reversed-dimension", "raw:overlong-ref",
 ];
 
+/// hand-written worksheet parts (events) for the malformed-input regressions
+fn raw_corpus(name: &str) -> Option<(Vec<Ev>, Vec<String>)> {
+    use xlsxw::{end, start, text};
+    let cell = |r: Option<&str>, t: Option<&str>, v: &str| -> Vec<Ev> {
+        let mut a: Vec<(&str, &str)> = vec![];
+        if let Some(r) = r {
+            a.push(("r", r));
+        }
+        if let Some(t) = t {
+            a.push(("t", t));
+        }
+        vec![start("c", &a), start("v", &[]), text(v), end("v"), end("c")]
+    };
+    let wrap = |dim: Option<&str>, rows: Vec<Vec<Ev>>| -> Vec<Ev> {
+        let mut v = vec![start("worksheet", &[("xmlns", xlsxw::NS_MAIN)])];
+        if let Some(d) = dim {
+            v.push(start("dimension", &[("ref", d)]));
+            v.push(end("dimension"));
+        }
+        v.push(start("sheetData", &[]));
+        for r in rows {
+            v.extend(r);
+        }
+        v.push(end("sheetData"));
+        v.push(end("worksheet"));
+        v
+    };
+    let row = |r: Option<&str>, cells: Vec<Vec<Ev>>| -> Vec<Ev> {
+        let mut v = vec![match r {
+            Some(r) => start("row", &[("r", r)]),
+            None => start("row", &[]),
+        }];
+        for c in cells {
+            v.extend(c);
+        }
+        v.push(end("row"));
+        v
+    };
+    let strings = vec!["a".to_string(), "b".to_string()];
+    Some((
+        match name {
+            // D39: a row reference at the u32 limit, then rows without `r`: `row_index += 1` overflowed
+            "raw:row-cursor-overflow" => wrap(None, vec![row(Some("4294967296"), vec![cell(Some("B30"), None, "1")]), row(None, vec![cell(Some("A31"), None, "2")]), row(None, vec![])]),
+            // D39: the same for the column cursor
+            "raw:col-cursor-overflow" => wrap(None, vec![row(Some("1"), vec![cell(Some("ZZZZZZZZ1"), None, "1"), cell(None, None, "2"), cell(None, None, "3")])]),
+            // D30-d
+            "raw:sst-index-out-of-range" => wrap(None, vec![row(Some("1"), vec![cell(Some("A1"), Some("s"), "7")])]),
+            // D30-c
+            "raw:reversed-dimension" => wrap(Some("B2:A1"), vec![row(Some("1"), vec![cell(Some("A1"), None, "1")])]),
+            // D30-a
+            "raw:overlong-ref" => wrap(None, vec![row(Some("1"), vec![cell(Some("A1"), None, "1")]), row(Some("A99999999999"), vec![cell(Some("B2"), None, "2")])]),
+            _ => return None,
+        },
+        strings,
+    ))
+}
+
 fn run_corpus(name: &str, rep: &mut Report, drv: &mut Driver) {
+    if name.starts_with("raw:") {
+        match raw_corpus(name) {
+            Some((evs, items)) => check_events(&format!("corpus {name}"), &evs, &items, "corpus", 1, rep, drv),
+            None => rep.fail("model_vs_spec", "unknown-corpus", &format!("corpus {name}"), "", "", ""),
+        }
+        return;
+    }
     let Some((book, l)) = corpus_case(name) else {
         rep.fail("model_vs_spec", "unknown-corpus", &format!("corpus {name}"), "", "", "");
         return;
@@ -1151,6 +1237,12 @@ fn run_corpus(name: &str, rep: &mut Report, drv: &mut Driver) {
 // ---- malformed worksheet parts (single faults): impl vs model, and "no panic"
 
 fn malformed_case(seed: u64, rep: &mut Report, drv: &mut Driver) {
+    let (evs, items, fname) = gen_malformed(seed);
+    check_events(&format!("malformed {seed}"), &evs, &items, fname, seed, rep, drv);
+}
+
+/// a valid rendered sheet with one structural fault: (events, shared strings, fault name)
+fn gen_malformed(seed: u64) -> (Vec<Ev>, Vec<String>, &'static str) {
     let mut rng = Rng::new(seed ^ 0xABCD);
     let mut book = XlsxBook::new();
     book.cell_xfs = vec![0, 14];
@@ -1246,26 +1338,35 @@ fn malformed_case(seed: u64, rep: &mut Report, drv: &mut Driver) {
             "drop-ref"
         }
     };
+    (evs, sst.items, fname)
+}
+
+/// a worksheet given as events: impl (stream + range) vs model, and "no panic"
+fn check_events(input: &str, evs: &[Ev], items: &[String], fname: &str, seed: u64, rep: &mut Report, drv: &mut Driver) {
+    let mut rng = Rng::new(seed ^ 0x77);
+    let mut book = XlsxBook::new();
+    book.cell_xfs = vec![0, 14];
+    book.sheets.push(XlsxSheet::new("S"));
+    let l = Layout::plain();
     let mut r2 = rng.fork();
-    let xml = xlsxw::serialize(&evs, || r2.chance(1, 2));
+    let xml = xlsxw::serialize(evs, || r2.chance(1, 2));
     // well-formedness is quick-xml's business: unbalanced events are written as they are (end names unchecked)
     book.sheets[0].raw_xml = Some(xml);
     let mut l2 = l.clone();
     l2.pct_empty_si = 0;
     l2.pct_rich = 0;
     // the shared string table of this file: the items the sheet refers to, plain
-    let items: String = sst.items.iter().map(|s| format!("<si><t>{}</t></si>", xlsxw::esc_text(s))).collect();
-    book.raw_shared_strings = Some(format!("<sst xmlns=\"{}\">{}</sst>", xlsxw::NS_MAIN, items));
+    let items_xml: String = items.iter().map(|s| format!("<si><t>{}</t></si>", xlsxw::esc_text(s))).collect();
+    book.raw_shared_strings = Some(format!("<sst xmlns=\"{}\">{}</sst>", xlsxw::NS_MAIN, items_xml));
     let built = book.build(&l2);
-    let input = format!("malformed {seed}");
-    rep.case(&input, true);
+    rep.case(input, true);
     rep.count(&format!("fault:{fname}"));
     let opened = guarded(|| Xlsx::new(Cursor::new(built.bytes.clone())));
     let mut wb = match opened {
         Ok(Ok(wb)) => wb,
         Ok(Err(_)) => return,
         Err(p) => {
-            rep.fail("impl_vs_spec", "open:panic", &input, &p, "", "no panic");
+            rep.fail("impl_vs_spec", "open:panic", input, &p, "", "no panic");
             return;
         }
     };
@@ -1318,13 +1419,13 @@ fn malformed_case(seed: u64, rep: &mut Report, drv: &mut Driver) {
             Ok(Ok(_)) => "ok:-".to_string(),
         }
     };
-    let mut req = format!("sheet od {}", sst.items.len());
-    for s in &sst.items {
+    let mut req = format!("sheet od {}", items.len());
+    for s in items {
         req.push(' ');
         req.push_str(&hex(s.as_bytes()));
     }
     req.push(' ');
-    req.push_str(&xlsxw::ev_wire(&evs));
+    req.push_str(&xlsxw::ev_wire(evs));
     let reply = drv.ask(&req);
     let field = |k: &str| -> String { reply.split(' ').find_map(|w| w.strip_prefix(k)).unwrap_or("").to_string() };
     let (inew, iend, icells) = impl_stream.unwrap_or(("?".into(), "panic".into(), vec![]));
@@ -1349,7 +1450,7 @@ fn malformed_case(seed: u64, rep: &mut Report, drv: &mut Driver) {
     rep.count(&format!("malformed-end:{}", iend.split(':').next().unwrap_or("")));
     let sheet_xml = String::from_utf8_lossy(&built.parts.iter().find(|p| p.0.to_lowercase().contains("sheet1.xml")).map(|p| p.1.clone()).unwrap_or_default()).replace('\n', "");
     if iend == "panic" || impl_range == "panic" || inew == "?" {
-        rep.fail("impl_vs_spec", &format!("reader:panic:{fname}"), &input, &format!("{impl_txt} || {sheet_xml}"), &model_txt, "an error or a range, not a panic");
+        rep.fail("impl_vs_spec", &format!("reader:panic:{fname}"), input, &format!("{impl_txt} || {sheet_xml}"), &model_txt, "an error or a range, not a panic");
     }
     // XmlEof-class endings depend on quick-xml's own end-of-input handling; compare the classes the model owns
     let same_new = inew == field("new=") || inew == "?";
@@ -1361,7 +1462,7 @@ fn malformed_case(seed: u64, rep: &mut Report, drv: &mut Driver) {
         return;
     }
     if !(same_new && (iend == "panic" || (iend == mend && icells == mcells)) && range_ok) {
-        rep.fail("impl_vs_model", &format!("malformed:{fname}"), &input, &format!("{impl_txt} || {sheet_xml}"), &model_txt, "");
+        rep.fail("impl_vs_model", &format!("malformed:{fname}"), input, &format!("{impl_txt} || {sheet_xml}"), &model_txt, "");
     }
 }
 
@@ -1494,6 +1595,30 @@ fn lean_case(seed: u64, rep: &mut Report, drv: &mut Driver) {
     }
 }
 
+/// fold a worker's report into the main one (workers see disjoint seeds)
+fn merge(main: &mut Report, w: Report) {
+    let j = w.to_json();
+    main.evaluations += w.evaluations;
+    let distinct = j["distinct_nontrivial"].as_u64().unwrap_or(0) - w.counters.get("bulk_distinct").copied().unwrap_or(0);
+    main.add("bulk_distinct", distinct);
+    for (k, v) in &w.counters {
+        main.add(k, *v);
+    }
+    for smp in &w.samples {
+        if main.samples.len() < 8 {
+            main.samples.push(smp.clone());
+        }
+    }
+    for f in &w.failures {
+        main.fail(&f.kind, &f.sig, &f.input, &f.impl_out, &f.model_out, &f.expect);
+    }
+    for (k, v) in &w.failure_count {
+        // `fail` above counted each distinct signature once
+        let already = w.failures.iter().any(|f| format!("{}|{}", f.kind, f.sig) == *k) as u64;
+        *main.failure_count.entry(k.clone()).or_insert(0) += v - already.min(*v);
+    }
+}
+
 fn main() {
     let args = Args::parse();
     let mut rep = Report::new(
@@ -1539,17 +1664,44 @@ fn main() {
     #[cfg(not(feature = "hooks"))]
     rep.notes.push("verif-hooks unavailable: unit sweeps skipped".into());
     let nfiles = args.count(3_000, 300_000);
+    // file / lean / malformed cases: seeds drawn from the one PRNG, then spread over worker threads
+    // (each with its own driver process); thorough tier uses all cores
+    let mut jobs: Vec<(u8, u64)> = vec![];
     for _ in 0..nfiles {
-        let seed = rng.next() >> 1;
-        file_case(seed, &mut rep, &mut drv);
+        jobs.push((0, rng.next() >> 1));
     }
     for _ in 0..(nfiles / 4).max(1) {
-        let seed = rng.next() >> 1;
-        lean_case(seed, &mut rep, &mut drv);
+        jobs.push((1, rng.next() >> 1));
     }
     for _ in 0..(nfiles / 3).max(1) {
-        let seed = rng.next() >> 1;
-        malformed_case(seed, &mut rep, &mut drv);
+        jobs.push((2, rng.next() >> 1));
+    }
+    let nthreads = if args.thorough() { std::thread::available_parallelism().map(|n| n.get()).unwrap_or(4).min(16) } else { 2 };
+    let chunks: Vec<Vec<(u8, u64)>> = (0..nthreads).map(|t| jobs.iter().skip(t).step_by(nthreads).copied().collect()).collect();
+    let driver_path = args.driver.clone();
+    let parts: Vec<Report> = std::thread::scope(|sc| {
+        let hs: Vec<_> = chunks
+            .into_iter()
+            .map(|chunk| {
+                let dp = driver_path.clone();
+                sc.spawn(move || {
+                    let mut r = Report::new("C01", "");
+                    let mut d = Driver::spawn(&dp);
+                    for (k, seed) in chunk {
+                        match k {
+                            0 => file_case(seed, &mut r, &mut d),
+                            1 => lean_case(seed, &mut r, &mut d),
+                            _ => malformed_case(seed, &mut r, &mut d),
+                        }
+                    }
+                    r
+                })
+            })
+            .collect();
+        hs.into_iter().map(|h| h.join().expect("worker thread")).collect()
+    });
+    for w in parts {
+        merge(&mut rep, w);
     }
     let _ = fnv64;
     rep.notes.push("trusted, exercised only: zip, quick-xml (text -> events, unescaping), f64::from_str; the model starts at the XML event list".into());
